@@ -22,7 +22,7 @@ func init() {
 			"R19a no partial primitive: every epoch-extracting method call on time.Time is inventoried; (time.Time).UnixNano (undefined outside years 1678-2262) and instant differences ((time.Time).Sub, time.Since, time.Until: time.Duration saturates at +-292 years) are rejected unless their operands derive from time.Now() only; " +
 			"R19b no overflowing arithmetic between instant and epoch number: in every function that converts between time.Time and an epoch number, each integer *, +, -, << is checked by interval analysis over SSA (strconv.Parse* results span their full type, (time.Time).Unix() spans the property's domain years 0-9999 +- 1 day, Nanosecond() is [0,1e9), %, / and comparison guards against constants narrow) and must not be able to leave its type; a time.Unix(x/k, ns) call must derive ns from x%k of the same x and k (no truncation of the epoch number); " +
 			"R19c error-out / empty-in: every call that yields (value, error) has its error tested, no use of the value is reachable before the test or on the non-nil edge, every return reachable from the non-nil edge carries a non-nil error, every return with a non-nil error carries only zero values (never a formatted time), and every exported function returns (\"\", nil) on the `input == \"\"` edge, which dominates the parse of that input; " +
-			"R19d unit dispatch is closed: the conversion functions are run abstractly with the unit parameter fixed to each constant it is compared with and to none of them: the constants are exactly SECOND and MILLISECOND, each is accepted on some path, both directions use the same set, and with an unknown unit every return after the first comparison is (\"\", non-nil error).",
+			"R19d unit dispatch is closed: the exported functions (or the lookup helper they hand the unit to) are run abstractly with the unit parameter fixed to each constant it is compared with / each constant key of the table it is looked up in (comma-ok), and to none of them: the constants are exactly SECOND and MILLISECOND, each is accepted on some path, both directions use the same set, and with an unknown unit every return after the first comparison is (\"\", non-nil error).",
 		NotDecided: "whether the instant is preserved: the layouts of the smart parser, overwrite-vs-convert zone logic, DST and leap handling are delegated to time and go-corelib/times; the scale factors themselves (1000, 1e6) are not related to the unit names; epoch strings outside the int64 seconds that time.Unix can represent.",
 		Trusted: append([]string{"time.Parse / times.SmartParse only produce years 0-9999 (the property's domain), so (time.Time).Unix() of a parsed value lies in [-62167305600, 253402387199]",
 			"(time.Time).Unix, UnixMilli, UnixMicro, Nanosecond and time.Unix are total on that domain; (time.Time).UnixNano is not"}, commonTrusted...),
@@ -832,14 +832,53 @@ func c19ErrorEdges(c *core.Ctx, fns []*ssa.Function) {
 			}
 			// real uses of the value components
 			valSet := map[ssa.Value]bool{}
+			spill := map[ssa.Instruction]bool{}
 			for _, ex := range vals {
 				for v := range c19PhiClosure(ex) {
 					valSet[v] = true
 				}
 			}
+			// a value parked in a local variable of the function (struct-typed results are spilled) is used where
+			// the variable is read, not where it is parked
+			for changed := true; changed; {
+				changed = false
+				for v := range valSet {
+					for _, u := range core.Referrers(v) {
+						st, ok := u.(*ssa.Store)
+						if !ok || st.Val != v || spill[st] {
+							continue
+						}
+						al, ok := st.Addr.(*ssa.Alloc)
+						if !ok || al.Heap {
+							continue
+						}
+						spill[st] = true
+						changed = true
+						var addrs []ssa.Value
+						addrs = append(addrs, al)
+						for i := 0; i < len(addrs); i++ {
+							for _, r := range core.Referrers(addrs[i]) {
+								switch y := r.(type) {
+								case *ssa.FieldAddr:
+									addrs = append(addrs, y)
+								case *ssa.IndexAddr:
+									addrs = append(addrs, y)
+								case *ssa.UnOp:
+									if y.Op == token.MUL {
+										valSet[y] = true
+									}
+								}
+							}
+						}
+					}
+				}
+			}
 			isUse := func(in ssa.Instruction) bool {
 				switch in.(type) {
 				case *ssa.Phi, *ssa.DebugRef, *ssa.Extract:
+					return false
+				}
+				if spill[in] {
 					return false
 				}
 				for _, op := range in.Operands(nil) {
@@ -978,14 +1017,291 @@ func c19ErrorEdges(c *core.Ctx, fns []*ssa.Function) {
 
 // ---------------------------------------------------------------- R19d
 
+// c19MapKeys: the constant string keys of a map value that is a literal built in this function, the result of a
+// parameterless repository function that returns such a literal, or a package-level map assigned once from a literal
+// in the package initialiser and otherwise only indexed. nil if the key set is not a static fact.
+func c19MapKeys(v ssa.Value, fns []*ssa.Function, depth int) []string {
+	if depth > 2 {
+		return nil
+	}
+	fromLiteral := func(mm *ssa.MakeMap, allowReturn bool) []string {
+		var keys []string
+		for _, u := range core.Referrers(mm) {
+			switch x := u.(type) {
+			case *ssa.MapUpdate:
+				k, ok := x.Key.(*ssa.Const)
+				if !ok || x.Map != ssa.Value(mm) || k.Value == nil || k.Value.Kind() != constant.String {
+					return nil
+				}
+				keys = append(keys, constant.StringVal(k.Value))
+			case *ssa.Lookup, *ssa.DebugRef:
+			case *ssa.Return:
+				if !allowReturn {
+					return nil
+				}
+			case *ssa.Store:
+				if _, isG := x.Addr.(*ssa.Global); !isG {
+					return nil
+				}
+			default:
+				return nil
+			}
+		}
+		sort.Strings(keys)
+		return keys
+	}
+	switch x := v.(type) {
+	case *ssa.MakeMap:
+		return fromLiteral(x, false)
+	case *ssa.Call:
+		g := x.Call.StaticCallee()
+		if g == nil || g.Blocks == nil || !core.InRepo(core.FuncPkg(g)) {
+			return nil
+		}
+		rets := c19Returns(g)
+		if len(rets) != 1 || len(rets[0].Results) != 1 {
+			return nil
+		}
+		if mm, ok := rets[0].Results[0].(*ssa.MakeMap); ok {
+			return fromLiteral(mm, true)
+		}
+		return c19MapKeys(rets[0].Results[0], fns, depth+1)
+	case *ssa.UnOp:
+		g, ok := x.X.(*ssa.Global)
+		if !ok || x.Op != token.MUL {
+			return nil
+		}
+		var lit *ssa.MakeMap
+		for _, f := range fns {
+			_ = f
+		}
+		// every use of the global in its package: one store of a literal in init, loads that are only indexed
+		if g.Pkg == nil {
+			return nil
+		}
+		for _, mem := range g.Pkg.Members {
+			fn, ok := mem.(*ssa.Function)
+			if !ok {
+				continue
+			}
+			all := append([]*ssa.Function{fn}, fn.AnonFuncs...)
+			for _, h := range all {
+				for _, b := range h.Blocks {
+					for _, in := range b.Instrs {
+						uses := false
+						for _, op := range in.Operands(nil) {
+							if *op == ssa.Value(g) {
+								uses = true
+							}
+						}
+						if !uses {
+							continue
+						}
+						switch y := in.(type) {
+						case *ssa.Store:
+							mm, ok := y.Val.(*ssa.MakeMap)
+							if !ok || lit != nil || !(h.Synthetic != "" && h.Name() == "init") {
+								return nil
+							}
+							lit = mm
+						case *ssa.UnOp:
+							for _, u := range core.Referrers(y) {
+								switch u.(type) {
+								case *ssa.Lookup, *ssa.DebugRef:
+								default:
+									return nil
+								}
+							}
+						default:
+							return nil
+						}
+					}
+				}
+			}
+		}
+		if lit == nil {
+			return nil
+		}
+		return fromLiteral(lit, false)
+	}
+	return nil
+}
+
+// c19disp is the unit dispatch found for one string parameter.
+type c19disp struct {
+	fn        *ssa.Function // function in which the dispatch happens (the conversion function or a lookup helper)
+	cases     []string
+	undecided string
+	first     token.Pos
+	run       func(assign string) []*ssa.Return
+	via       string
+}
+
+// c19Dispatch finds the dispatch on parameter p of f: comparisons with string constants and comma-ok lookups in a table
+// with constant keys, in f itself or in a helper of the scope that is handed p unchanged.
+func c19Dispatch(f *ssa.Function, p *ssa.Parameter, scope map[*types.Package]bool, fns []*ssa.Function, depth int) *c19disp {
+	if f.Blocks == nil || depth > 2 {
+		return nil
+	}
+	tests := map[*ssa.If]func(assign string) bool{} // true edge taken?
+	caseSet := map[string]bool{}
+	d := &c19disp{fn: f, first: token.NoPos}
+	var mark func(v ssa.Value, pred func(string) bool, depth int)
+	mark = func(v ssa.Value, pred func(string) bool, dd int) {
+		if dd > 3 {
+			return
+		}
+		for _, uu := range core.Referrers(v) {
+			switch y := uu.(type) {
+			case *ssa.If:
+				tests[y] = pred
+				if !d.first.IsValid() || core.InstrPos(y) < d.first {
+					d.first = core.InstrPos(y)
+				}
+			case *ssa.UnOp:
+				if y.Op == token.NOT {
+					mark(y, func(a string) bool { return !pred(a) }, dd+1)
+				}
+			}
+		}
+	}
+	for _, u := range core.Referrers(p) {
+		switch x := u.(type) {
+		case *ssa.BinOp:
+			if x.Op != token.EQL && x.Op != token.NEQ {
+				continue
+			}
+			other := x.Y
+			if x.Y == ssa.Value(p) {
+				other = x.X
+			}
+			k, ok := other.(*ssa.Const)
+			if !ok || k.Value == nil || k.Value.Kind() != constant.String || constant.StringVal(k.Value) == "" {
+				continue
+			}
+			val, eq := constant.StringVal(k.Value), x.Op == token.EQL
+			n := len(tests)
+			mark(x, func(a string) bool { return (a == val) == eq }, 0)
+			if len(tests) > n {
+				caseSet[val] = true
+			}
+		case *ssa.Lookup:
+			if x.Index != ssa.Value(p) {
+				continue
+			}
+			if _, isMap := x.X.Type().Underlying().(*types.Map); !isMap {
+				continue
+			}
+			keys := c19MapKeys(x.X, fns, 0)
+			if keys == nil {
+				d.undecided = "the unit is looked up in a table whose key set is not a static fact"
+				continue
+			}
+			if !x.CommaOk {
+				d.undecided = "the unit is looked up without a comma-ok test: an unknown unit yields the zero entry"
+				continue
+			}
+			inKeys := map[string]bool{}
+			for _, k := range keys {
+				inKeys[k] = true
+			}
+			for _, uu := range core.Referrers(x) {
+				if ex, ok := uu.(*ssa.Extract); ok && ex.Index == 1 {
+					n := len(tests)
+					mark(ex, func(a string) bool { return inKeys[a] }, 0)
+					if len(tests) > n {
+						for _, k := range keys {
+							caseSet[k] = true
+						}
+					}
+				}
+			}
+		}
+	}
+	if len(tests) == 0 && d.undecided == "" {
+		// delegated to a helper that receives p unchanged
+		for _, u := range core.Referrers(p) {
+			call, ok := u.(*ssa.Call)
+			if !ok {
+				continue
+			}
+			h := call.Call.StaticCallee()
+			if h == nil || h.Blocks == nil || !scope[core.FuncPkg(h)] || len(h.Params) != len(call.Call.Args) {
+				continue
+			}
+			for i, a := range call.Call.Args {
+				if a != ssa.Value(p) {
+					continue
+				}
+				if sub := c19Dispatch(h, h.Params[i], scope, fns, depth+1); sub != nil {
+					sub.via = core.FuncKey(h)
+					return sub
+				}
+			}
+		}
+		return nil
+	}
+	for k := range caseSet {
+		d.cases = append(d.cases, k)
+	}
+	sort.Strings(d.cases)
+	// abstract run of the function with p fixed to `assign` ("" = none of the constants): the returns that are
+	// reachable after at least one test of p has been decided
+	d.run = func(assign string) []*ssa.Return {
+		type st struct {
+			b      *ssa.BasicBlock
+			passed bool
+		}
+		seen := map[st]bool{}
+		var out []*ssa.Return
+		var walk func(s st)
+		walk = func(s st) {
+			if seen[s] {
+				return
+			}
+			seen[s] = true
+			last := s.b.Instrs[len(s.b.Instrs)-1]
+			switch x := last.(type) {
+			case *ssa.Return:
+				if s.passed {
+					out = append(out, x)
+				}
+			case *ssa.If:
+				if t, ok := tests[x]; ok {
+					taken := 1
+					if t(assign) {
+						taken = 0
+					}
+					walk(st{s.b.Succs[taken], true})
+					return
+				}
+				walk(st{s.b.Succs[0], s.passed})
+				walk(st{s.b.Succs[1], s.passed})
+			default:
+				for _, nx := range s.b.Succs {
+					walk(st{nx, s.passed})
+				}
+			}
+		}
+		walk(st{f.Blocks[0], false})
+		sort.Slice(out, func(i, j int) bool { return out[i].Pos() < out[j].Pos() })
+		return out
+	}
+	return d
+}
+
 func c19UnitDispatch(c *core.Ctx, fns []*ssa.Function) {
-	type disp struct {
+	scope := map[*types.Package]bool{}
+	for _, f := range fns {
+		scope[core.FuncPkg(f)] = true
+	}
+	type found struct {
 		f     *ssa.Function
 		cases []string
 	}
-	var all []disp
+	var all []found
 	for _, f := range fns {
-		if !c19IsEpochFunc(f) || f.Parent() != nil {
+		if f.Parent() != nil || f.Object() == nil || !f.Object().Exported() {
 			continue
 		}
 		res := f.Signature.Results()
@@ -993,144 +1309,78 @@ func c19UnitDispatch(c *core.Ctx, fns []*ssa.Function) {
 			continue
 		}
 		for _, p := range f.Params {
-			// the Ifs decided by a comparison of p with a non-empty string constant (possibly negated)
-			type cmp struct {
-				val string
-				eq  bool // the true edge means p == val
-			}
-			tests := map[*ssa.If]cmp{}
-			caseSet := map[string]bool{}
-			for _, u := range core.Referrers(p) {
-				bo, ok := u.(*ssa.BinOp)
-				if !ok || (bo.Op != token.EQL && bo.Op != token.NEQ) {
-					continue
-				}
-				other := bo.Y
-				if bo.Y == ssa.Value(p) {
-					other = bo.X
-				}
-				k, ok := other.(*ssa.Const)
-				if !ok || k.Value == nil || k.Value.Kind() != constant.String || constant.StringVal(k.Value) == "" {
-					continue
-				}
-				val := constant.StringVal(k.Value)
-				var mark func(v ssa.Value, eq bool, d int)
-				mark = func(v ssa.Value, eq bool, d int) {
-					if d > 3 {
-						return
-					}
-					for _, uu := range core.Referrers(v) {
-						switch y := uu.(type) {
-						case *ssa.If:
-							tests[y] = cmp{val, eq}
-							caseSet[val] = true
-						case *ssa.UnOp:
-							if y.Op == token.NOT {
-								mark(y, !eq, d+1)
-							}
-						}
-					}
-				}
-				mark(bo, bo.Op == token.EQL, 0)
-			}
-			if len(tests) == 0 {
+			if b, ok := p.Type().Underlying().(*types.Basic); !ok || b.Info()&types.IsString == 0 {
 				continue
 			}
-			var cases []string
-			for k := range caseSet {
-				cases = append(cases, k)
+			d := c19Dispatch(f, p, scope, fns, 0)
+			if d == nil {
+				continue
 			}
-			sort.Strings(cases)
 			key := core.FuncKey(f) + " dispatch on " + p.Name()
-			first := f.Pos()
-			for ifi := range tests {
-				if first == f.Pos() || core.InstrPos(ifi) < first {
-					first = core.InstrPos(ifi)
-				}
+			via := ""
+			if d.via != "" {
+				via = " (in " + d.via + ")"
 			}
-			// abstract run of the function with p fixed to `assign` ("" = none of the constants): the returns
-			// that are reachable after at least one comparison of p has been decided
-			run := func(assign string) []*ssa.Return {
-				type st struct {
-					b      *ssa.BasicBlock
-					passed bool
-				}
-				seen := map[st]bool{}
-				var out []*ssa.Return
-				var walk func(s st)
-				walk = func(s st) {
-					if seen[s] {
-						return
-					}
-					seen[s] = true
-					last := s.b.Instrs[len(s.b.Instrs)-1]
-					switch x := last.(type) {
-					case *ssa.Return:
-						if s.passed {
-							out = append(out, x)
-						}
-					case *ssa.If:
-						if t, ok := tests[x]; ok {
-							taken := 1
-							if (assign == t.val) == t.eq {
-								taken = 0
-							}
-							walk(st{s.b.Succs[taken], true})
-							return
-						}
-						walk(st{s.b.Succs[0], s.passed})
-						walk(st{s.b.Succs[1], s.passed})
-					default:
-						for _, nx := range s.b.Succs {
-							walk(st{nx, s.passed})
-						}
-					}
-				}
-				walk(st{f.Blocks[0], false})
-				sort.Slice(out, func(i, j int) bool { return out[i].Pos() < out[j].Pos() })
-				return out
+			if d.undecided != "" {
+				c.Unknown("R19d", key+" cases", d.first, d.undecided+via)
+				all = append(all, found{f, nil})
+				continue
 			}
-			last := res.Len() - 1
+			dres := d.fn.Signature.Results()
+			if dres.Len() < 2 || !c19IsError(dres.At(dres.Len()-1).Type()) {
+				c.Unknown("R19d", key+" cases", d.first, "the helper that dispatches on the unit does not return an error"+via)
+				all = append(all, found{f, nil})
+				continue
+			}
+			last := dres.Len() - 1
 			// (1) case set: exactly the documented units, each of which is accepted on some path
-			okCases := strings.Join(cases, ",") == strings.Join(c19Units, ",")
-			why := "cases are " + strings.Join(cases, ", ") + ", expected exactly " + strings.Join(c19Units, ", ")
+			okCases := strings.Join(d.cases, ",") == strings.Join(c19Units, ",")
+			why := "cases are " + strings.Join(d.cases, ", ") + ", expected exactly " + strings.Join(c19Units, ", ")
 			if okCases {
-				for _, cs := range cases {
+				for _, cs := range d.cases {
 					accepted := false
-					for _, rt := range run(cs) {
+					for _, rt := range d.run(cs) {
 						if core.IsNilConst(rt.Results[last]) {
 							accepted = true
 						}
 					}
 					if !accepted {
-						okCases, why = false, "unit "+cs+" is compared against but never converted"
+						okCases, why = false, "unit "+cs+" is tested for but never converted"
 					}
 				}
 			}
-			c.Check(okCases, "R19d", key+" cases", first, "cases "+strings.Join(cases, ", "), why)
-			all = append(all, disp{f, cases})
-			// (2) default: with a unit that equals none of the constants every return after the dispatch is ("", error)
-			rets := run("")
+			c.Check(okCases, "R19d", key+" cases", d.first, "cases "+strings.Join(d.cases, ", ")+via, why+via)
+			all = append(all, found{f, d.cases})
+			// (2) default: with a unit that equals none of the constants every return after the dispatch is (zero, error)
+			rets := d.run("")
 			bad, badPos := "", token.NoPos
 			for _, rt := range rets {
-				if (core.IsNilConst(rt.Results[last]) || !core.IsZeroConst(rt.Results[0])) && bad == "" {
+				zero := true
+				for i := 0; i < last; i++ {
+					if !core.IsZeroConst(rt.Results[i]) {
+						zero = false
+					}
+				}
+				if (core.IsNilConst(rt.Results[last]) || !zero) && bad == "" {
 					bad, badPos = "an unknown unit does not end in (\"\", error): it is converted as if it were a known unit", core.InstrPos(rt)
 				}
 			}
 			if len(rets) == 0 {
-				bad, badPos = "no return after the unit dispatch", first
+				bad, badPos = "no return after the unit dispatch", d.first
 			}
 			if bad != "" {
-				c.Bad("R19d", key+" default", badPos, bad)
+				c.Bad("R19d", key+" default", badPos, bad+via)
 			} else {
-				c.OK("R19d", key+" default", core.InstrPos(rets[0]), "unknown unit returns (\"\", error)")
+				c.OK("R19d", key+" default", core.InstrPos(rets[0]), "unknown unit returns (\"\", error)"+via)
 			}
 		}
 	}
 	if len(all) == 2 {
-		same := strings.Join(all[0].cases, ",") == strings.Join(all[1].cases, ",")
-		c.Check(same, "R19d", "unit sets of "+core.FuncKey(all[0].f)+" and "+core.FuncKey(all[1].f)+" agree", all[0].f.Pos(),
-			"same unit set in both directions", "the two conversion directions accept different units")
+		if all[0].cases != nil && all[1].cases != nil {
+			same := strings.Join(all[0].cases, ",") == strings.Join(all[1].cases, ",")
+			c.Check(same, "R19d", "unit sets of "+core.FuncKey(all[0].f)+" and "+core.FuncKey(all[1].f)+" agree", all[0].f.Pos(),
+				"same unit set in both directions", "the two conversion directions accept different units")
+		}
 	} else {
 		c.Unresolved("R19d", "unit dispatches", fmt.Sprintf("expected a unit dispatch in each of the two conversion directions, found %d", len(all)))
 	}
